@@ -20,7 +20,7 @@ SPLINE_MAX = 3000
 
 
 TREND_FAMILIES = ["poly", "sin", "const", "npscalar", "poly_sum", "poly_dot", "daily_inplace", "math_sin", "step",
-                  "late_ramp", "clipped", "ufunc", "poly1d", "np_polynomial"]
+                  "late_ramp", "clipped", "ufunc", "poly1d", "np_polynomial", "zero_d_answer"]
 
 
 def trend_fun(desc):
@@ -55,6 +55,16 @@ def trend_fun(desc):
                 "expm1_neg": np.negative}[c[0]]
     if kind == "poly1d":            # numpy.poly1d objects: callable, with __len__ = degree (a constant polynomial is FALSY)
         return np.poly1d(list(c))
+    if kind == "zero_d_answer":     # callables that answer a number with a 0-d array: SciPy interpolants, np.vectorize, np.where
+        how = desc.get("how", "asarray")
+        if how == "cubic_spline":
+            from scipy.interpolate import CubicSpline
+            return CubicSpline(desc["knots"], c)
+        if how == "vectorize":
+            return np.vectorize(lambda t: c[0] * t + c[1])
+        if how == "where":
+            return lambda t: np.where(t < c[2], c[0] * t + c[1], c[1])
+        return lambda t: np.asarray(c[0] * t + c[1])
     if kind == "np_polynomial":     # numpy.polynomial objects (lowest power first, argument mapped from domain to window)
         klass = np.polynomial.Chebyshev if desc.get("basis") == "chebyshev" else np.polynomial.Polynomial
         return klass(list(c), domain=desc["domain"]) if desc.get("domain") else klass(list(c))
@@ -90,6 +100,16 @@ def gen_trend(rng, x, y, normalized, families=None):
         c = [mag * float(v) / s ** (deg - j) for j, v in enumerate(rng.normal(0, 1, deg + 1))]
         if deg == 0 and rng.integers(0, 3) == 0:
             c = [0.0]                          # the zero trend
+    elif fam == "zero_d_answer":
+        how = ["asarray", "cubic_spline", "vectorize", "where"][int(rng.integers(0, 4))]
+        lo, hi = (float(x[0]) / span, float(x[-1]) / span) if normalized else (float(x[0]), float(x[-1]))
+        if how == "cubic_spline":
+            knots = [lo - 0.1 * (hi - lo) - 1e-9, lo + 0.3 * (hi - lo), lo + 0.6 * (hi - lo), hi + 0.1 * (hi - lo) + 1e-9]
+            if not all(b > a for a, b in zip(knots, knots[1:])):
+                how = "asarray"
+            else:
+                return {"family": fam, "how": how, "knots": knots, "coef": [mag * float(v) for v in rng.normal(0, 1, 4)]}
+        return {"family": fam, "how": how, "coef": [mag * c[0] / s, mag * c[1], lo + 0.5 * (hi - lo)]}
     elif fam == "np_polynomial":
         deg = int(rng.integers(0, 4))
         lo, hi = (float(x[0]) / span, float(x[-1]) / span) if normalized else (float(x[0]), float(x[-1]))
